@@ -32,7 +32,7 @@ ASSUMPTIONS = ['python == / hash on the generated elements (None, ints, quarter 
                'kwargs_support(f)(**params) passes exactly the declared arguments by name and raises TypeError when one is missing; generated functions are lambda args: c + 1*a1 + 2*a2 + ... and never declare an argument named key',
                'attribute access (getattr/setattr/delattr = item access, AttributeError for KeyError) and in-place writes are modelled on a heap of handles (DAHeap); a name that is a public attribute of the class (DAHeap.shadowed, compared with dir(cls) by a law) yields the bound method, a private name (leading underscore) is written to the instance dict which is not modelled (known finding K1); object identity beyond handles (aliasing of values) is not modelled',
                'Dict + other is tree_update (C15): modelled by DA.addC / PygModel.DictAdd on the C15 model Tree.itemsToTree; with dict values on both sides it is the recursive merge, not {**d, **o}',
-               'tuple paths (d - (a, b)) and absent dotted keys in d[k] / d[k1, k2] / d[[..]] are modelled on Val-valued mappings (PygModel/DADotted.lean) and generated for the stateless operators; in the handle histories (generic heap model) keys hold no dot; the path walk is generated through dict values, numbers and None only (str / list values on the way: not generated); relabelling onto an existing key is outside the statement and not generated; self-referential callables are outside the acyclic statement and generated for correspondence only (call-selfloop)']
+               'tuple paths (d - (a, b)) and absent dotted keys in d[k] / d[k1, k2] / d[[..]] are modelled on Val-valued mappings (PygModel/DADotted.lean) and generated for the stateless operators; in the handle histories (generic heap model) keys hold no dot; the path walk is generated through dict values, numbers and None only (str / list values on the way: not generated); relabelling onto an existing key / of two keys to one name (a value is lost: the statement has no reading) is generated for correspondence (d.relabel-collision; model theorem relabel_lookup: the last colliding item wins); self-referential callables are outside the acyclic statement and generated for correspondence only (call-selfloop)']
 
 ELEMS = [None, 0, 1, 2, 3, 4, 5, 1.0, 2.0, 2.5, 'a', 'b', 'c', '', (1, 2), (1, 'a'), (2.0, 1), ()]
 KEYS = ['a', 'b', 'c', 'd', 'e', 'x', 'y']
@@ -233,7 +233,19 @@ def gen_da(rng):
         fresh = ['A', 'B', 'C', 'D2']
         if rng.random() < 0.15 and olds:
             fresh = rng.sample([k for k in ARG_KEYS + ['keys'] if k not in d] + ['A'], 1) + fresh      # ... and as a NEW name
-        arg = enc({k: fresh[i] for i, k in enumerate(olds)})       # new names never collide with existing keys
+        arg = enc({k: fresh[i] for i, k in enumerate(olds)})       # new names never collide with existing keys ...
+        if rng.random() < 0.3 and olds and len(d) >= 2:
+            # ... except here (review t2): a new name that IS another key of d, or two keys relabelled to one name.  The statement's
+            # "exactly the expected keys and untouched values" has no reading then (one value must go); model and code agree on python's
+            # dict construction - the LAST of the colliding items wins, at the position of the first (theorem relabel_lookup)
+            present = [k for k in olds if k in d]
+            others = [k for k in d if k not in olds]
+            if present and others and rng.random() < 0.6:
+                m = {k: fresh[i] for i, k in enumerate(olds)}
+                m[present[0]] = rng.choice(others)
+            else:
+                m = {k: 'A' for k in olds}
+            return dict(tag='d.relabel-collision', lines=['(c16 d.relabel %s %s)' % (D, enc(m))])
         if any(k in ARG_KEYS + ['keys'] for k in olds + fresh[:len(olds)]):
             return dict(tag='d.relabel-argname-keys', lines=['(c16 d.relabel %s %s)' % (D, arg)])
     else:
